@@ -94,7 +94,13 @@ CatAtoms(s) == IF s = <<>> THEN "" ELSE AtomStr(s[1]) \o CatAtoms(Tail(s))
 \* The value the statement demands ("exactly that map") is the written value: everything
 \* between the ONE pair of delimiters, character by character.
 IsWritten(a) == "w" \in DOMAIN a
-AttrOf(a) == IF IsWritten(a) THEN [n |-> a.n, v |-> CatAtoms(a.w)] ELSE a
+\* A written attribute may also carry the CHARACTERS of its NAME: [nw, w, q, eq] with nw : Seq(atom)
+\* (plain words and single punctuation characters: d ~ 1) instead of the one-atom name n.  The name the
+\* statement demands is the written name: everything in front of the '=' (and its blanks).
+HasWrittenName(a) == "nw" \in DOMAIN a
+NameAtoms(a) == IF HasWrittenName(a) THEN a.nw ELSE <<a.n>>
+NameOf(a) == IF HasWrittenName(a) THEN CatAtoms(a.nw) ELSE a.n
+AttrOf(a) == IF IsWritten(a) THEN [n |-> NameOf(a), v |-> CatAtoms(a.w)] ELSE a
 AttrsOf(attrs) == [i \in 1..Len(attrs) |-> AttrOf(attrs[i])]
 Delim(q) == CASE q = "dq" -> <<"\"">> [] q = "sq" -> <<"'">> [] q = "none" -> <<>>
 \* characters a URL-safe value is made of (RFC 3986 unreserved and sub-delims / pchar that have
@@ -104,7 +110,23 @@ Delim(q) == CASE q = "dq" -> <<"\"">> [] q = "sq" -> <<"'">> [] q = "none" -> <<
 \* page is a prediction of the model beyond the statement (DRIFT).
 SafeValuePunct == {"'", "=", ":", ";", ",", ".", "-", "_", "~", "(", ")", "/", "?", "@", "+", "*", "$", "%"}
 UrlSafeValue(w) == \A i \in 1..Len(w) : (w[i] \notin Punct /\ w[i] \notin {"SP", "NL"}) \/ w[i] \in SafeValuePunct
-UrlSafeAttrs(attrs) == \A i \in 1..Len(attrs) : IsWritten(attrs[i]) => UrlSafeValue(attrs[i].w)
+\* Per-site table of the characters an attribute NAME may hold besides letters and digits (data; the law
+\* Equiv(MachineTree(Render), TreeOf) ties it to the transcribed regexps, the conformance runs to the real ones):
+\*   "tag"    inside an HTML start tag: \b[-a-zA-Z0-9:_.]+ of the start-tag token and of tag_fn
+\*   "table"  {| |+ |- ! | positions: only parse_attrs reads the text, its name class is NEGATIVE
+\*            [^"'>/=\0-\037\s]+ : every character that cannot end a name belongs to it (of the RFC 3986
+\*            unreserved / sub-delim / pchar characters all but ' = / and those that end the attribute
+\*            position in wikitext: | ! { } [ ] <)
+\* A name starts with a letter or digit (\b) at every site.
+TagNameChars == {"-", ":", "_", "."}
+TableNameChars == TagNameChars \cup {"~", ";", ",", "(", ")", "?", "@", "+", "*", "$", "%", "&", "#"}
+NameCharsAt(site) == IF site = "tag" THEN TagNameChars ELSE TableNameChars
+\* the statement quantifies over URL-safe NAMES: letters, digits and the RFC 3986 unreserved marks - . _ ~
+\* plus ':' (every name class of the code has it: xml:lang); a name with any other character is a
+\* prediction of the model beyond the statement (DRIFT)
+SafeNamePunct == {"-", ".", "_", "~", ":"}
+UrlSafeName(a) == HasWrittenName(a) => \A i \in 1..Len(a.nw) : IsWord(a.nw[i]) \/ a.nw[i] \in SafeNamePunct
+UrlSafeAttrs(attrs) == \A i \in 1..Len(attrs) : IsWritten(attrs[i]) => UrlSafeValue(attrs[i].w) /\ UrlSafeName(attrs[i])
 \* which written attributes the fragment covers (site = "tag": inside an HTML start tag, "table": the
 \* {| |- |+ ! | positions).  Outside: a value holding its own delimiter; an unquoted value that is
 \* empty or holds a quote, blank, = < > `; two adjacent apostrophes anywhere in the rendering ('' is
@@ -123,6 +145,9 @@ OKWritten(a, site) ==
      /\ NoAdjacentApostrophes(a.w)
      /\ site = "tag" => \A i \in 1..Len(a.w) : a.w[i] # ">"
      /\ (site = "tag" /\ a.q = "none") => a.w[Len(a.w)] # "/"
+     \* a written name: plain words and the characters of the site's table, starting with a word
+     /\ HasWrittenName(a) => (a.nw # <<>> /\ IsPlainWord(a.nw[1])
+                              /\ \A i \in 1..Len(a.nw) : IsPlainWord(a.nw[i]) \/ a.nw[i] \in NameCharsAt(site))
 OKAttrs(attrs, site) == \A i \in 1..Len(attrs) : OKWritten(attrs[i], site)
 
 (* ------------------------------------------------------------------------ *)
@@ -130,7 +155,7 @@ OKAttrs(attrs, site) == \A i \in 1..Len(attrs) : OKWritten(attrs[i], site)
 (* ------------------------------------------------------------------------ *)
 RenderAttr(a, q) ==
   IF IsWritten(a)
-  THEN <<a.n>> \o (IF a.eq THEN <<"SP", "=", "SP">> ELSE <<"=">>) \o Delim(a.q) \o a.w \o Delim(a.q)
+  THEN NameAtoms(a) \o (IF a.eq THEN <<"SP", "=", "SP">> ELSE <<"=">>) \o Delim(a.q) \o a.w \o Delim(a.q)
   ELSE
   IF a.v = "" THEN <<a.n>>
   ELSE CASE q = "dq" -> <<a.n, "=", "\"", a.v, "\"">>
@@ -242,7 +267,7 @@ TreeOf(page) == RootNode(CT(page))
 (* ------------------------------------------------------------------------ *)
 (* which written structures the statement is about (preconditions)           *)
 (* ------------------------------------------------------------------------ *)
-UniqueNames(attrs) == \A i, j \in 1..Len(attrs) : i # j => attrs[i].n # attrs[j].n
+UniqueNames(attrs) == \A i, j \in 1..Len(attrs) : i # j => NameOf(attrs[i]) # NameOf(attrs[j])
 NoFormatEdge(c) == c # <<>> /\ c[1].k \notin {"I", "B"} /\ c[Len(c)].k \notin {"I", "B"}
 RECURSIVE OKContent(_, _), OKItem(_, _)
 \* cx: set of enclosing construct kinds
@@ -421,6 +446,11 @@ InClass(a, cls, dev) ==
     [] cls = "host" -> IsWord(a) \/ a \in {".", "-", "_"}
     [] cls = "path" -> a \notin {"[", "]", "{", "}", "<", ">", "|", "SP", "NL"}
     [] cls = "tagattr" -> IsTagAttrName(a, dev)
+    \* the same class AFTER the first atom of a name: - _ . written as atoms of their own (the characters of
+    \* a written name, HasWrittenName); in canonical text they are part of the word atom in front of them
+    [] cls = "tagattr+" -> IsTagAttrName(a, dev) \/ a = "-" \/ ("TagAttrNameCharset" \notin dev /\ a \in {"_", "."})
+    \* what-if "NameClassOfStartTags": the name class of parse_attrs is the POSITIVE class of start tags
+    [] cls = "attrname-as-tag" -> IsWord(a) \/ a \in {"-", ":", "_", "."}
     [] cls = "unq" -> a \notin {"SP", "NL", "\"", "'", "`", "=", "<", ">"}
     [] cls = "attrname" -> a \notin {"\"", "'", ">", "/", "=", "SP", "NL"}        \* [^"'>/=\0-\037\s]
     [] cls = "attrunq" -> a \notin {"\"", "'", "<", ">", "`", "SP", "NL"}        \* [^"'<>`\s]
@@ -452,7 +482,7 @@ QuotedLen(seg, q, qc) ==   \* length of "...": 0 if not a quoted string
        IN IF j > 0 /\ seg[j] = qc THEN j - q + 1 ELSE 0
   ELSE 0
 AttrGroupLen(seg, q, dev) ==
-  LET nl == RunLenC(seg, q, "tagattr", dev)
+  LET nl == IF q <= Len(seg) /\ InClass(seg[q], "tagattr", dev) THEN 1 + RunLenC(seg, q + 1, "tagattr+", dev) ELSE 0
       p1 == q + nl
       w1 == RunLen(seg, p1, "ws")
   IN IF nl = 0 THEN 0
@@ -677,7 +707,10 @@ PlainQuotedLen(s, q, qc) ==   \* length of qc [^qc]* qc at q, 0 if none
 \*   "QuotesStrippedGreedily"   every quote character of either kind is taken off both ends
 \*   "QuotesRemovedEverywhere"  every quote character of either kind is taken out of the value
 \*   "ValueEndsAtAnyQuote"      a quoted value ends at the next quote character of either kind
-WhatIfAttrDevs == {"QuotesStrippedGreedily", "QuotesRemovedEverywhere", "ValueEndsAtAnyQuote"}
+\*   "NameClassOfStartTags"     the NAME class of parse_attrs is the positive class of start tags ([\w:.-]+)
+\*                              instead of "everything that cannot end a name": a name written in a table
+\*                              position is cut at the first character outside it (d~1=7 -> d, 1=7)
+WhatIfAttrDevs == {"QuotesStrippedGreedily", "QuotesRemovedEverywhere", "ValueEndsAtAnyQuote", "NameClassOfStartTags"}
 QuoteAtoms == {"\"", "'"}
 RECURSIVE LStripQ(_), RStripQ(_)
 LStripQ(s) == IF Len(s) > 0 /\ s[1] \in QuoteAtoms THEN LStripQ(Tail(s)) ELSE s
@@ -695,7 +728,7 @@ RECURSIVE ParseAttrsFromD(_, _, _)
 ParseAttrsFromD(s, p, dev) ==
   IF p > Len(s) THEN <<>>
   ELSE IF ~(IsWord(s[p]) \/ s[p] = "_") THEN ParseAttrsFromD(s, p + 1, dev)      \* \b
-  ELSE LET nl == RunLen(s, p, "attrname")
+  ELSE LET nl == RunLen(s, p, IF "NameClassOfStartTags" \in dev THEN "attrname-as-tag" ELSE "attrname")
            name == CatAtoms(SubSeq(s, p, p + nl - 1))
            p1 == SkipWs(s, p + nl)
        IN IF p1 <= Len(s) /\ s[p1] = "="
